@@ -486,7 +486,14 @@ def run_native(scratch, obls, tier):
             msg = (msgs[0] if msgs else body[-400:]).strip()
             pm = PROP_RE.match(msg)
             r["fails"] = [{"props": pm.group(1).split("/") if pm else None, "description": msg[:600], "location": {"file": o["file"]}, "category": "native"}]
-            r["native"] = {"ran": True, "panics": [msg[:600]], "cmd": " ".join(cmd)}
+            # non-fail-fast checks print one `VERIF-FAIL <message>` line per failing clause label
+            soft = [x.strip() for x in re.findall(r"^VERIF-FAIL (.*)$", body, re.M)]
+            for x in soft:
+                if x[:600] == msg[:600]:
+                    continue
+                xm = PROP_RE.match(x)
+                r["fails"].append({"props": xm.group(1).split("/") if xm else None, "description": x[:600], "location": {"file": o["file"]}, "category": "native"})
+            r["native"] = {"ran": True, "panics": [f["description"] for f in r["fails"]], "cmd": " ".join(cmd)}
             r["playback"] = [{"test": o["harness"], "source": "native bounded check: the failing input is printed in the panic message", "values": []}]
         else:
             if not built:
